@@ -176,14 +176,25 @@ Proof. vm_compute. reflexivity. Qed.
 Example pin_tok_in_decimal_from_unicode : tok_in_decimal_from_unicode =
     [(t "call:.get_cls_attrs");
      (t "op:And");
+     (t "call:isinstance");
+     (t "op:Not");
+     (t "call:isinstance");
+     (t "call:str");
+     (t "op:Not");
+     (t "call:isinstance");
+     (t "raise:ValidationError");
+     (t "op:And");
      (t "op:IsNot");
      (t "call:len");
      (t "op:Gt");
      (t "raise:ValidationError");
-     (t "return");
      (t "call:D");
      (t "except:InvalidOperation");
-     (t "raise:ValidationError")].
+     (t "raise:ValidationError");
+     (t "op:Not");
+     (t "call:.is_finite");
+     (t "raise:ValidationError");
+     (t "return")].
 Proof. vm_compute. reflexivity. Qed.
 
 Example pin_tok_in_duration_from_unicode : tok_in_duration_from_unicode =
